@@ -262,10 +262,12 @@ func (c *c08) startReader(start int64, committed bool) {
 				// (with retention configured the reader's own position may have been deleted: not judged)
 				if ctx.Err() == nil && !log.IsClosed() && h.prog.Param("ret_msgs", 0) == 0 {
 					sig := "C08/live/error"
-					if pkgErrors.Cause(err) == ErrSegmentClosed && c.touchedReplaced(r, log) {
-						// known finding: index reads of a segment that a running compaction has already
-						// replaced fail with "segment has been closed" (only data reads are mapped to the
-						// retryable ErrSegmentReplaced), so the reader dies instead of re-initialising
+					if cause := pkgErrors.Cause(err); (cause == ErrSegmentClosed || cause == ErrSegmentReplaced) && c.touchedReplaced(r, log) {
+						// known finding: a reader that touches a segment a running compaction has already
+						// replaced cannot re-initialise, because the log's segment list still holds the old
+						// (closed) segment objects until the clean swaps the whole list at its very end: the
+						// index lookup of the re-initialisation fails ("segment has been closed" before fix
+						// c8d1f9a, "failed to reinitialize reader: segment was replaced" since) and the reader dies
 						sig = "C08/live/error/index-of-replaced-segment"
 					}
 					dbg := ""
